@@ -723,6 +723,7 @@ int main (int argc, char **argv)
 	Args a = parse_args (argc, argv, 2) ;
 	if (a.kv.count ("tmpdir")) g_tmpdir = a.get ("tmpdir") ;
 	mkdir (g_tmpdir.c_str (), 0755) ;
+	g_thorough = a.get ("tier") == "thorough" ;
 	if (cmd == "run") return cmd_run (a) ;
 	if (cmd == "gen") return cmd_gen (a) ;
 	if (cmd == "one") return cmd_one (a) ;
